@@ -204,12 +204,12 @@ ROUND10 = {
     "C02": " Also: look-alike leaves (digit-initial words ending in e/E, names containing typographic operator characters such as U+2212 / U+00D7, text constants made of digits and signs) in every one-operator tree over all ordered leaf pairs and in the two-operator trees; tight renderings also put operator against operator where the reference lexer keeps them apart (`2**3`, `a*-b`).",
     "C03": " Also: back-to-back evaluations on operands that are equal under == but different values (sign of zero, int / float twins, NaNs) for every operator and side; trees precompiled from literals, evaluated, edited in place through children_mut / operator_mut (operands, operator) and evaluated again.",
     "C04": " Also: histories starting from HashMapContext::default() and from what std::mem::take leaves behind, not only from new().",
-    "C05": "",
+    "C05": " Also: assignments to a variable holding the empty value and boolean op-assignments (`||=`, `&&=`) whose right-hand side is a parenthesised sequence and whose target already holds the deciding value, as elements of the random sequence programs.",
     "C06": " Also: two float literals in one input whose text differs only in the sign of the exponent.",
     "C07": "",
     "C08": " Also: the program in parentheses followed by a binary operator that lacks its right operand: all effects of the program happen, then the incomplete application fails (or the program's own failure is reported).",
     "C09": " Also: the tuple without elements (held by a variable) as argument in three call forms; every builtin and non-builtin name under a second numeric type (Int = i64, Float = f64) before and after its use under the default one, in HashMapContext and both fixed contexts.",
-    "C10": "",
+    "C10": " Also: one argument of math::pow / math::log / math::atan2 / math::hypot pinned to each of 26 special values (2, 10, e, 0.5, powers of two, ... as integer and as float), the other drawn with a full 53-bit mantissa over 2^-10..2^10.",
     "C11": "",
     "C12": " Also: the `fresh empty context` of the context-free comparison is, every other source, a context whose earlier bindings of other types were cleared.",
     "C13": " Also: every short (and a quarter of the longer) ill-formed source is evaluated at string level right after a well-formed-looking sibling that differs only in blanks (all blanks removed; blanks doubled).",
